@@ -591,7 +591,10 @@ func (p *parser) forStatement() ast.Statement {
 		bodyTable := p.newScope()                        // temporary symbolTable for the loop variable
 		bodyTable.InsertDecl(Ident.Literal, initializer) // add the loop variable to the table
 		if index != nil {
-			bodyTable.InsertDecl(index.Name(), index) // add the loop variable to the table
+			// the index lives in the scope of the loop variable: it may not have the same name
+			if bodyTable.InsertDecl(index.Name(), index) {
+				p.err(ddperror.SEM_NAME_ALREADY_DEFINED, index.NameTok.Range, ddperror.MsgNameAlreadyExists(index.Name()))
+			}
 		}
 		p.resolver.LoopDepth++
 		if p.matchAny(token.MACHE) { // body is a block statement
